@@ -14,6 +14,7 @@ import LyModel.YangStr.Drv
 import LyModel.LyHt.Drv
 import LyModel.Sib.Drv
 import LyModel.Diff.Drv
+import LyModel.Ctx.Drv
 /-! Dispatch table of the line-protocol driver: one handler per component. -/
 namespace LyModel.Drv
 
@@ -35,6 +36,7 @@ def dispatch (comp op : String) (args : List String) : String :=
   | "ht" => LyHt.Drv.handle op args
   | "sib" => Sib.Drv.handle op args
   | "diff" => Diff.Drv.handle op args
+  | "ctx" => Ctx.Drv.handle op args
   | _ => "err NoSuchComponent"
 
 end LyModel.Drv
